@@ -533,8 +533,10 @@ theorem grows_callSites (env : Env) :
     (fun e log => ∀ v log', evalExpr env e log = (.ok v, log') → Grows (callSites e) log log')
     (fun es log => ∀ vs log', evalList env es log = (.ok vs, log') → Grows (callSitesL es) log log')
   -- num, str, errLit, blankSlot
-  · intro l log v log' h
-    simp only [evalExpr, Prod.mk.injEq] at h
+  · intro l log hbig v log' h
+    simp [evalExpr, hbig] at h
+  · intro l log hbig v log' h
+    simp only [evalExpr, hbig, Bool.false_eq_true, if_false, Prod.mk.injEq] at h
     simp only [callSites]; rw [← h.2]; exact Grows.refl _
   · intro s log v log' h
     simp only [evalExpr, Prod.mk.injEq] at h
